@@ -3,6 +3,7 @@
 Intervals are unsigned [lo, hi] over the value's bit width.  Known bits are
 (zeros mask, ones mask).  Both are computed by a forward fixpoint over a
 function (optimistic phis for known-bits; intervals are used path-wise)."""
+from .build import Broken
 from .facts import const_val
 
 
@@ -123,7 +124,7 @@ def explore_intervals(f, start_env, on_store=None, max_states=5000):
         b, env, pred, visited = stack.pop()
         n += 1
         if n > max_states:
-            raise RuntimeError("interval exploration bound exceeded in %s" % f.name)
+            raise Broken("interval exploration of %s exceeds its bound: not decided" % f.name)
 
         def getiv(v, bits=None):
             if v[0] == "c":
